@@ -382,6 +382,28 @@ def validate_trace(module, cfgfile, records, tag, chunks=None, timeout=1800):
     return verdicts, {"states": states, "distinct": distinct}
 
 
+def run_model(module, cfg, workers=8, timeout=1800, expect_ok=True, xmx="8g"):
+    """Model-check spec/<module>.tla with spec/<cfg>. Returns dict(states, distinct, replays=[json objects], wall).
+    Raises ToolError when TLC reports an error (a design-model counterexample is a tool-level event here: it has
+    to be replayed into the real code before it means anything about the implementation)."""
+    r = run_tlc(module, cfg, workers=workers, timeout=timeout, xmx=xmx, xss=False)
+    out = r["stdout"]
+    ok = "Model checking completed. No error has been found." in out
+    replays = []
+    for line in out.splitlines():
+        line = line.strip()
+        if line.startswith('"REPLAY|') and line.endswith('"'):
+            try:
+                replays.append(json.loads(json.loads(line)[len("REPLAY|"):]))
+            except ValueError:
+                pass
+    if expect_ok and not ok:
+        sys.stderr.write("\n".join(out.splitlines()[-40:]) + "\n")
+        raise ToolError("TLC reported an error on design model %s (%s)" % (module, cfg))
+    return {"ok": ok, "states": r.get("states", 0), "distinct": r.get("distinct", 0), "replays": replays,
+            "wall": r["wall"], "stdout": out}
+
+
 # --------------------------------------------------------------------------- findings / evidence
 def load_known():
     p = os.path.join(VERIF, "KNOWN_FINDINGS.json")
